@@ -303,23 +303,29 @@ func checkC15(c C15Case) (*Violation, []string, *caseInfo) {
 	}
 	nontrivial := false
 	shape := ""
+	multiHunk, multiValue, voidAdd := false, false, false
 	for _, s := range w.diffs {
 		d := s.live.(jd.Diff)
 		if len(d) >= 2 {
 			nontrivial = true
+			multiHunk = true
 		}
 		for _, e := range d {
 			if len(e.Add) > 1 || len(e.Remove) > 1 {
 				nontrivial = true
+				multiValue = true
 			}
 			for _, x := range e.Add {
 				if fingerprint(x) == "jd.voidNode{}" {
 					nontrivial = true
+					voidAdd = true
 				}
 			}
 		}
 		shape += fmt.Sprintf("%d.", min(len(d), 3))
 	}
+	_ = shape
+	shapeClass := fmt.Sprintf("multihunk=%v,multivalue=%v,void=%v", multiHunk, multiValue, voidAdd)
 	// invariant 2 must hold already after construction (Diff is in the list)
 	if v := w.checkUnchanged("world construction (Diff under each option set)"); v != nil {
 		return v, w.log, info
@@ -406,18 +412,34 @@ func checkC15(c C15Case) (*Violation, []string, *caseInfo) {
 			return viol15("still-patches", "Patch", "after the history %s, patching A with %s gives %s; patching with its never-used twin gives %s", strings.Join(ops, " · "), s.name, showStr(r1.String()), showStr(r2.String())), w.log, info
 		}
 	}
-	// signature: which option sets, which kinds of call occurred (as a set),
-	// the shape class of the shared diffs, the map-order mode
+	// signature: the set of call classes that occurred, what the shared diffs
+	// look like (multi-hunk / multi-value hunk / void addition), whether merge
+	// or set readings are in play, and the map-order mode
+	classOf := map[string]string{"Diff": "Diff", "DiffBA": "Diff", "Equals": "Equals", "Json": "JsonYaml", "Yaml": "JsonYaml",
+		"Render": "Render", "RenderColor": "Render", "ElemRender": "Render", "ElemRenderColor": "Render",
+		"RenderPatch": "RenderPatch", "RenderMerge": "RenderMerge", "Read": "Read", "ReadDoc": "Read"}
 	uniq := map[string]bool{}
 	var kinds []string
 	for _, o := range ops {
-		if !uniq[o] {
-			uniq[o] = true
-			kinds = append(kinds, o)
+		k := classOf[o]
+		if !uniq[k] {
+			uniq[k] = true
+			kinds = append(kinds, k)
 		}
 	}
 	sort.Strings(kinds)
-	info.Sig = fmt.Sprintf("%v|%s|%s|%s", c.Opts, strings.Join(kinds, ","), shape, c.Order.Mode)
+	hasMerge, hasSet := false, false
+	for _, os := range c.Opts {
+		for _, o := range os {
+			if o == "MERGE" {
+				hasMerge = true
+			}
+			if o == "SET" || o == "MULTISET" || strings.HasPrefix(o, "SetKeys") {
+				hasSet = true
+			}
+		}
+	}
+	info.Sig = fmt.Sprintf("%s|%s|merge=%v|set=%v|%s", strings.Join(kinds, ","), shapeClass, hasMerge, hasSet, c.Order.Mode)
 	info.Nontrivial = nontrivial
 	info.Steps = len(c.Calls)
 	return nil, w.log, info
